@@ -194,7 +194,7 @@ var C20IP4 = Register(&Check[CaseText]{
 			case 2:
 				s = append(s, genFrom(t, "digs", "0123456789.", 1, 12)...)
 			case 3:
-				s = append(s, genFrom(t, "junk", "abcxyz-_@:[]", 1, 10)...)
+				s = append(s, genFrom(t, "junk", "abcxyz-_@:[]\xb0\xb4\xb9\xae\xff", 1, 10)...)
 			default:
 				s = append(s, pick(t, "sep", ".", "..", "-", "@", ":", "", "x")...)
 			}
